@@ -75,7 +75,13 @@ type c08Shape struct {
 	Height    int64       `json:"height"`
 	Salt      []int       `json:"salt"`          // parameters of the enumerated mutations (positions, bits)
 	Ctl       bool        `json:"ctl,omitempty"` // also run the non-asserted (neutral / control) mutations
+	// Cores > 0: the verifying node has that many cores (ledger.NumCPU, the width of the ledger's per-transaction
+	// parallel loops); 0 = this machine's count
+	Cores int `json:"cores,omitempty"`
 }
+
+// c08MachineCPU: this machine's value of ledger.NumCPU (restored when a shape does not choose one).
+var c08MachineCPU = ledgerpkg.NumCPU
 
 type c08Mut struct {
 	K string `json:"k"`           // kind
@@ -87,7 +93,7 @@ type c08Mut struct {
 // expectation classes of a mutant
 const (
 	c08Reject  = iota // VerifyBlock must return false
-	c08TxidLay        // content altered under unchanged txid: MakeTransactionID(tx) != tx.Txid must hold
+	c08TxidLay        // content altered under unchanged txid: MakeTransactionID(tx) != tx.Txid must hold and VerifyBlock must refuse
 	c08Neutral        // outside the statement: nothing asserted, result only labelled
 )
 
@@ -220,6 +226,11 @@ func c08Txs(s c08Shape, key *hx.Key) []*pb.Transaction {
 func c08Build(lo *hx.LedgerOnly, s c08Shape) (*c08Built, error) {
 	if s.Key < 0 || s.Key >= len(hx.Ring) || s.NTx < 0 {
 		return nil, fmt.Errorf("bad shape %+v", s)
+	}
+	if s.Cores > 0 {
+		ledgerpkg.NumCPU = s.Cores
+	} else {
+		ledgerpkg.NumCPU = c08MachineCPU
 	}
 	b := &c08Built{lo: lo, shape: s, key: hx.Ring[s.Key]}
 	b.other = hx.Ring[(s.Key+1+s.salt(0)%(len(hx.Ring)-1))%len(hx.Ring)]
@@ -481,6 +492,10 @@ func (b *c08Built) mutations() []c08Mut {
 			}
 			body("tx:alter-reid:"+f, ti, s.salt(28))
 			out = append(out, c08Mut{K: "tx:alter-keepid:" + f, I: ti, J: s.salt(28)})
+		}
+		// a body altered under its own id at EVERY position (the id check must reach each transaction, the last included)
+		for ti := 0; ti < n; ti++ {
+			out = append(out, c08Mut{K: "tx:alter-keepid:desc", I: ti, J: s.salt(28) + 1})
 		}
 	}
 	if n > 1 {
@@ -1026,6 +1041,13 @@ func (b *c08Built) judge(mu c08Mut, m *pb.InternalBlock, meta c08Meta) (layer st
 		if terr == nil && bytes.Equal(id, tx.Txid) {
 			return "", fmt.Errorf("mutation %+v: transaction %d altered but MakeTransactionID still equals its txid %x (VerifyBlock=%v)", mu, meta.tx, tx.Txid, ok)
 		}
+		if ok && tx.GetVersion() > 0 {
+			// since fix 52dadae VerifyBlock recomputes every transaction id: the body is bound to the header through the
+			// ids, and an altered body under a genuine id must be refused at ANY position (only the version-0 root
+			// transaction of a genesis block has no content hash)
+			return "", fmt.Errorf("VerifyBlock accepts the mutant %+v of a %s block with %d txs judged with %d cores: transaction %d was altered under its unchanged txid %x",
+				mu, b.shape.Fmt, b.shape.NTx, ledgerpkg.NumCPU, meta.tx, tx.Txid)
+		}
 		if ok {
 			return "txid", nil
 		}
@@ -1248,6 +1270,9 @@ func c08GenShape(rt *rapid.T) c08Shape {
 	}
 	s.TxTag = fmt.Sprintf("t%d", rapid.IntRange(0, 9999).Draw(rt, "tag"))
 	s.V3 = rapid.IntRange(0, 3).Draw(rt, "v3") == 0
+	// half of the blocks are judged by a node with fewer cores than this machine (bodies longer than the core count,
+	// and not a multiple of it, exercise the chunking of the ledger's parallel per-transaction loops)
+	s.Cores = rapid.SampledFrom([]int{0, 0, 0, 1, 2, 3, 4}).Draw(rt, "cores")
 	if s.Fmt == "root" {
 		if s.NTx == 0 {
 			s.NTx = 1
@@ -1336,13 +1361,14 @@ func c08Witnesses() map[string][2]interface{} {
 
 func TestC08(t *testing.T) {
 	c := hx.NewCollector("C08", "exploration",
-		"rapid-drawn block shapes (FormatMinerBlock / FormatBlock / FormatRootBlock of a real ledger; 0..9 transactions, tx versions 1 and 3, with/without coinbase, quorum certificate with 0..4 sign infos, 0..3 failed-tx messages, target bits 0 / small / huge, small / nanosecond / extreme timestamps, any of 12 proposer keys, root or arbitrary prehash); the formatted block must verify (also after a protobuf round trip), its id must equal MakeBlockID and its root an independent merkle implementation; then every applicable single mutation of the enumerated list (each hashed header field incl. every Justify / sign-info / failed-tx message field, in the variants stale id / id recomputed / id recomputed and re-signed by another key; body add / drop / duplicate / dup-tail / swap / rotate / replace / txid change / content change with and without txid recomputation, in the variants body only / header reformatted / reformatted and re-signed by another key; signature and id corruptions, foreign-key re-signing with and without switching Pubkey or Proposer) must be refused by VerifyBlock, a content change under an unchanged txid by MakeTransactionID != txid. Merkle differential for 1..33 leaves. Non-trivial = tx count not a power of two, or justify present; distinct = hash of (block shape descriptor, mutation descriptor) || sync-path: the REAL block synchronisation path of the node - Miner.ProcBlock (pushed block) and the miner own catch-up trySyncBlock(nil) with a stub network and consensus - is fed genuine chains of 1-4 blocks and copies tampered under the genuine id (dropped / added / swapped transaction, re-formatted body, altered timestamp, foreign signature or key), as target or as downloaded ancestor, also as a second delivery after the consensus refused the genuine first one; after every delivery every stored block must verify when read back and equal the genuine block of its id, genuine chains must be accepted (vacuity guard)",
+		"rapid-drawn block shapes (FormatMinerBlock / FormatBlock / FormatRootBlock of a real ledger; 0..9 transactions, tx versions 1 and 3, with/without coinbase, quorum certificate with 0..4 sign infos, 0..3 failed-tx messages, target bits 0 / small / huge, small / nanosecond / extreme timestamps, any of 12 proposer keys, root or arbitrary prehash; half of the blocks judged by a node with 1-4 cores instead of this machine's count - ledger.NumCPU -, every transaction position altered under its unchanged txid); the formatted block must verify (also after a protobuf round trip), its id must equal MakeBlockID and its root an independent merkle implementation; then every applicable single mutation of the enumerated list (each hashed header field incl. every Justify / sign-info / failed-tx message field, in the variants stale id / id recomputed / id recomputed and re-signed by another key; body add / drop / duplicate / dup-tail / swap / rotate / replace / txid change / content change with and without txid recomputation, in the variants body only / header reformatted / reformatted and re-signed by another key; signature and id corruptions, foreign-key re-signing with and without switching Pubkey or Proposer) must be refused by VerifyBlock, a content change under an unchanged txid by MakeTransactionID != txid. Merkle differential for 1..33 leaves. Non-trivial = tx count not a power of two, or justify present; distinct = hash of (block shape descriptor, mutation descriptor) || sync-path: the REAL block synchronisation path of the node - Miner.ProcBlock (pushed block) and the miner own catch-up trySyncBlock(nil) with a stub network and consensus - is fed genuine chains of 1-4 blocks and copies tampered under the genuine id (dropped / added / swapped transaction, re-formatted body, altered timestamp, foreign signature or key), as target or as downloaded ancestor, also as a second delivery after the consensus refused the genuine first one; after every delivery every stored block must verify when read back and equal the genuine block of its id, genuine chains must be accepted (vacuity guard)",
 		"SHA-256 collisions and ECDSA forgeries do not occur",
 		"a real block carries at least the award transaction: for 0 transactions only the id is checked and the VerifyBlock verdict is labelled (VerifyMerkle refuses an empty body)",
 		"the root block is confirmed without VerifyBlock (unsigned): only id and merkle root are checked for it",
 		"fields the id does not cover (Height, MerkleTree, InTrunk, NextHash, failed-tx keys, tx.Blockid, non-positive TargetBits, trailing bytes after the DER signature) are evaluated without assertion",
 		"CheckMinerMatch of the pluggable consensus is covered by C16")
 	defer c.Flush(t)
+	defer func() { ledgerpkg.NumCPU = c08MachineCPU }()
 	fs := hx.LoadFindings()
 	// xuperchain/crypto reports unparsable keys through the std logger: thousands of lines for the pubkey mutants
 	log.SetOutput(io.Discard)
